@@ -987,15 +987,26 @@ def gen_invocation(rng, specs, dash_values=False, max_calls=3, clusters=True):
     # a bare optional-value flag must not be followed by a task name or a positional value
     for idx, call in enumerate(calls):
         c = specs[call["task"]]
-        occs = call["occs"]
-        for k, o in enumerate(occs):
-            if "cluster" in o or not (o["form"] == "bare" and "t" in o["val"]):
-                continue
-            last = k == len(occs) - 1
-            nxt_pos = (not last) and "cluster" not in occs[k + 1] and occs[k + 1]["form"] == "pos"
-            if (last and idx < len(calls) - 1) or nxt_pos:
-                a = c["args"][o["arg"]]
-                occs[k] = dict(o, form="eq", val={"s": "7" if a["kind"] in ("KInt", "KOther") else "ov"})
+        for _ in range(6):
+            occs = call["occs"]
+            changed = False
+            for k, o in enumerate(occs):
+                if "cluster" in o or not (o["form"] == "bare" and "t" in o["val"]):
+                    continue
+                last = k == len(occs) - 1
+                nxt_pos = (not last) and "cluster" not in occs[k + 1] and occs[k + 1]["form"] == "pos"
+                if (last and idx < len(calls) - 1) or nxt_pos:
+                    a = c["args"][o["arg"]]
+                    if a["kind"] == "KOther" and cast_outcome(a["kind_name"], "7") in ("V", "T"):
+                        # no text converts (bytes, date): leave the flag out
+                        call["occs"] = occs[:k] + occs[k + 1:]
+                    else:
+                        call["occs"] = occs[:k] + [dict(o, form="eq", val={
+                            "s": "7" if a["kind"] in ("KInt", "KOther") else "ov"})] + occs[k + 1:]
+                    changed = True
+                    break
+            if not changed:
+                break
     return calls
 
 
